@@ -2,21 +2,12 @@ package larking
 
 import (
 	"context"
-	"net"
 	"net/http"
 	"net/url"
 	"sync"
 
 	"google.golang.org/grpc"
-	"google.golang.org/grpc/credentials/insecure"
-	"google.golang.org/grpc/reflection"
 	rpb "google.golang.org/grpc/reflection/grpc_reflection_v1alpha"
-	"google.golang.org/grpc/test/bufconn"
-	"google.golang.org/protobuf/proto"
-	"google.golang.org/protobuf/reflect/protodesc"
-	"google.golang.org/protobuf/reflect/protoreflect"
-	"google.golang.org/protobuf/reflect/protoregistry"
-	"google.golang.org/protobuf/types/descriptorpb"
 )
 
 func init() {
@@ -42,79 +33,7 @@ func vfReflClientFor(cci grpc.ClientConnInterface) rpb.ServerReflection_ServerRe
 	return &vfReflStream{svcs: vfConnTable[cc], yields: true}
 }
 
-var vfNativeCleanup []func()
-
-func vfCloseBackends() {
-	for _, f := range vfNativeCleanup {
-		f()
-	}
-	vfNativeCleanup = nil
-}
-
-type vfFilesResolver struct{ own *protoregistry.Files }
-
-func (r vfFilesResolver) FindFileByPath(p string) (protoreflect.FileDescriptor, error) {
-	if fd, err := r.own.FindFileByPath(p); err == nil {
-		return fd, nil
-	}
-	return protoregistry.GlobalFiles.FindFileByPath(p)
-}
-func (r vfFilesResolver) FindDescriptorByName(n protoreflect.FullName) (protoreflect.Descriptor, error) {
-	if d, err := r.own.FindDescriptorByName(n); err == nil {
-		return d, nil
-	}
-	return protoregistry.GlobalFiles.FindDescriptorByName(n)
-}
-
-func vfNativeBackendUnary(srv interface{}, ctx context.Context, dec func(interface{}) error, _ grpc.UnaryServerInterceptor) (interface{}, error) {
-	return nil, nil
-}
-
-// vfBackendConn (native body; intercepted by the engine): a live backend exposing specs.
-func vfBackendConn(specs []vfSvcSpec) *grpc.ClientConn {
-	files := new(protoregistry.Files)
-	seen := map[string]bool{}
-	srv := grpc.NewServer()
-	var ccp *grpc.ClientConn
-	for _, sp := range specs {
-		if !seen[sp.file] {
-			seen[sp.file] = true
-			fdp := &descriptorpb.FileDescriptorProto{}
-			if err := proto.Unmarshal(vfFileBytes(sp.file), fdp); err != nil {
-				panic(err)
-			}
-			fd, err := protodesc.NewFile(fdp, protoregistry.GlobalFiles)
-			if err != nil {
-				panic(err)
-			}
-			if err := files.RegisterFile(fd); err != nil {
-				panic(err)
-			}
-		}
-		sd := &grpc.ServiceDesc{ServiceName: sp.full, HandlerType: (*interface{})(nil), Metadata: sp.file}
-		reqD, _ := files.FindDescriptorByName(protoreflect.FullName("vf." + sp.reqName))
-		respD, _ := files.FindDescriptorByName(protoreflect.FullName("vf.Resp" + sp.reqName))
-		for _, ms := range sp.methods {
-			// every method is served by the scripted backend application (h_proxy.go)
-			h := vfNativeProxyHandler(func() *vfProxyBackend { return vfProxyTable[ccp] }, ms.cs, reqD.(protoreflect.MessageDescriptor), respD.(protoreflect.MessageDescriptor))
-			sd.Streams = append(sd.Streams, grpc.StreamDesc{StreamName: ms.name, Handler: h, ClientStreams: ms.cs, ServerStreams: ms.ss})
-		}
-		srv.RegisterService(sd, struct{}{})
-	}
-	rs := reflection.NewServer(reflection.ServerOptions{Services: srv, DescriptorResolver: vfFilesResolver{files}, ExtensionResolver: protoregistry.GlobalTypes})
-	rpb.RegisterServerReflectionServer(srv, rs)
-	lis := bufconn.Listen(1 << 16)
-	go srv.Serve(lis)
-	cc, err := grpc.NewClient("passthrough:///verif",
-		grpc.WithContextDialer(func(ctx context.Context, _ string) (net.Conn, error) { return lis.DialContext(ctx) }),
-		grpc.WithTransportCredentials(insecure.NewCredentials()))
-	if err != nil {
-		panic(err)
-	}
-	ccp = cc
-	vfNativeCleanup = append(vfNativeCleanup, func() { cc.Close(); srv.Stop() })
-	return cc
-}
+func vfBackendSetSpecsFake(cc *grpc.ClientConn, specs []vfSvcSpec) { vfConnTable[cc] = specs }
 
 // VerifH_conc_registration (C12): two registration operations (RegisterConn / registerService /
 // DropConn - the real functions, with their locking) run CONCURRENTLY with each other and with a
